@@ -286,7 +286,11 @@ func MapOrderMode(k int) {}
 func Note(s string)      {}
 func Share(p any)        {}
 func ShareNoRaceCheck(p any) {}
-func Yield()             {}
+
+// PreemptBound limits the pre-emptive context switches per execution in the following Par
+// (-1 = unbounded); a stated bound of the harness. Native: no effect (the search is guided).
+func PreemptBound(k int) {}
+func Yield()             { SchedYield() }
 func LocksHeld() int     { return 0 }
 
 // NowNano reads the clock (engine: a fresh symbolic instant >= all earlier ones; native replay:
@@ -541,6 +545,7 @@ var (
 	dfsPrefix   []int
 	dfsTrace    [][2]int
 	dfsPos      int
+	guidePos    int
 	otherFails  = map[string]bool{}
 	parIter     int
 )
@@ -580,6 +585,19 @@ func npick(cur *nthread, curRunnable bool) *nthread {
 	}
 	if len(en) == 0 {
 		return nil
+	}
+	// Guidance: the engine recorded which thread it chose at each of its decisions. Put that thread
+	// first, so the first native schedule follows the engine's as closely as the (slightly
+	// different) decision points allow; the depth-first search explores the deviations.
+	if guidePos < len(rp.Schedule) {
+		want := rp.Schedule[guidePos]
+		for i, t := range en {
+			if t.id == want {
+				en[0], en[i] = en[i], en[0]
+				guidePos++
+				break
+			}
+		}
 	}
 	return en[dfsChoose(len(en))]
 }
@@ -747,7 +765,7 @@ func RunSchedules(harness func()) {
 	for {
 		runs++
 		resetInputs()
-		dfsTrace, dfsPos, nabort, nactive = nil, 0, false, false
+		dfsTrace, dfsPos, nabort, nactive, guidePos = nil, 0, false, false, 0
 		func() {
 			defer func() {
 				if r := recover(); r != nil {
